@@ -1,21 +1,35 @@
 import Adsb.Res
 import Adsb.Gen.Tables
-/-! # crc.rs: `modes_checksum` (table driven, over the generated `CRC_TABLE`) -/
+/-! # crc.rs: `modes_checksum` (table driven, over the generated `CRC_TABLE`)
+
+The Rust code keeps the remainder in a `u32` masked to 24 bits after every step; the model keeps it
+in a `BitVec 24` (same arithmetic: `<< 8`, `^`, `& 0x00ff_ffff`, index `byte ^ (rem >> 16)`; a table
+entry is truncated to 24 bits exactly as the mask does). -/
 
 namespace Adsb
 
-def crcStep (rem byte : Nat) : Nat :=
-  ((rem <<< 8) ^^^ Gen.crcTable.getD (byte ^^^ ((rem &&& 0xff0000) >>> 16)) 0) &&& 0xffffff
+abbrev W := BitVec 24
 
-def crcRem (msg : List UInt8) : Nat := msg.foldl (fun r b => crcStep r b.toNat) 0
+/-- `CRC_TABLE[i]`, truncated to 24 bits -/
+def tableBV (i : BitVec 8) : W := BitVec.ofNat 24 (Gen.crcTable.getD i.toNat 0)
+
+/-- one iteration of the loop of `modes_checksum` -/
+def crcStep (r : W) (b : UInt8) : W := (r <<< 8) ^^^ tableBV (b.toBitVec ^^^ (r >>> 16).setWidth 8)
+
+def crcRem (msg : List UInt8) : W := msg.foldl crcStep 0
+
+/-- the last three bytes of an `n`-byte frame as one 24-bit value -/
+def tail24 (msg : List UInt8) (n : Nat) : W :=
+  ((msg.getD (n - 3) 0).toBitVec.setWidth 24 <<< 16) ^^^ ((msg.getD (n - 2) 0).toBitVec.setWidth 24 <<< 8) ^^^
+    (msg.getD (n - 1) 0).toBitVec.setWidth 24
+
+/-- the value `modes_checksum` returns on the first `n` bytes -/
+def crcVal (msg : List UInt8) (n : Nat) : Nat := (crcRem (msg.take (n - 3)) ^^^ tail24 msg n).toNat
 
 /-- `modes_checksum(message, bits)` -/
 def modesChecksum (msg : List UInt8) (bits : Nat) : Res Nat :=
   let n := bits / 8
   if n < 3 ∨ msg.length < n then .err .incomplete
-  else
-    let rem := crcRem (msg.take (n - 3))
-    let x := ((msg.getD (n - 3) 0).toNat <<< 16) ^^^ ((msg.getD (n - 2) 0).toNat <<< 8) ^^^ (msg.getD (n - 1) 0).toNat
-    .ok (rem ^^^ x)
+  else .ok (crcVal msg n)
 
 end Adsb
